@@ -370,16 +370,22 @@ impl<'a, 'b> Shader for ImageRepeatAlphaShader<'a, 'b> {
 pub struct RadialGradientShader {
     gradient: Box<GradientSource>,
     spread: Spread,
+    alpha: u32,
 }
 
 impl RadialGradientShader {
     pub fn new(gradient: &Gradient, transform: &Transform, spread: Spread, alpha: u32) -> RadialGradientShader {
         RadialGradientShader {
+            // The colour table is built at full alpha and the global alpha is applied to the
+            // premultiplied result in shade_span: scaling the unpremultiplied stops (which is
+            // what make_source does with its alpha) and premultiplying afterwards would
+            // multiply the colour channels by alpha twice.
             gradient: gradient.make_source(&transform_to_fixed(
                 &transform.pre_translate(vec2(0.5, 0.5))),
-                alpha
+                255
             ),
             spread,
+            alpha: alpha_to_alpha256(alpha),
         }
     }
 }
@@ -387,7 +393,7 @@ impl RadialGradientShader {
 impl Shader for RadialGradientShader {
     fn shade_span(&self, mut x: i32, y: i32, dest: &mut [u32], count: usize) {
         for i in 0..count {
-            dest[i] = self.gradient.radial_gradient_eval(x as u16, y as u16, self.spread);
+            dest[i] = alpha_mul(self.gradient.radial_gradient_eval(x as u16, y as u16, self.spread), self.alpha);
             x += 1;
         }
     }
@@ -396,6 +402,7 @@ impl Shader for RadialGradientShader {
 pub struct TwoCircleRadialGradientShader {
     gradient: Box<TwoCircleRadialGradientSource>,
     spread: Spread,
+    alpha: u32,
 }
 
 impl TwoCircleRadialGradientShader {
@@ -413,9 +420,11 @@ impl TwoCircleRadialGradientShader {
                 r1,
                 c2.x, c2.y,
                 r2,
-                &transform_to_fixed(&transform.pre_translate(vec2(0.5, 0.5))), alpha
+                // see RadialGradientShader::new
+                &transform_to_fixed(&transform.pre_translate(vec2(0.5, 0.5))), 255
             ),
             spread,
+            alpha: alpha_to_alpha256(alpha),
         }
     }
 }
@@ -423,7 +432,7 @@ impl TwoCircleRadialGradientShader {
 impl Shader for TwoCircleRadialGradientShader {
     fn shade_span(&self, mut x: i32, y: i32, dest: &mut [u32], count: usize) {
         for i in 0..count {
-            dest[i] = self.gradient.eval(x as u16, y as u16, self.spread);
+            dest[i] = alpha_mul(self.gradient.eval(x as u16, y as u16, self.spread), self.alpha);
             x += 1;
         }
     }
@@ -432,6 +441,7 @@ impl Shader for TwoCircleRadialGradientShader {
 pub struct SweepGradientShader {
     gradient: Box<SweepGradientSource>,
     spread: Spread,
+    alpha: u32,
 }
 
 impl SweepGradientShader {
@@ -445,9 +455,11 @@ impl SweepGradientShader {
             gradient: gradient.make_sweep_source(
                 start_angle,
                 end_angle,
-                &transform_to_fixed(&transform.pre_translate(vec2(0.5, 0.5))), alpha
+                // see RadialGradientShader::new
+                &transform_to_fixed(&transform.pre_translate(vec2(0.5, 0.5))), 255
             ),
             spread,
+            alpha: alpha_to_alpha256(alpha),
         }
     }
 }
@@ -455,7 +467,7 @@ impl SweepGradientShader {
 impl Shader for SweepGradientShader {
     fn shade_span(&self, mut x: i32, y: i32, dest: &mut [u32], count: usize) {
         for i in 0..count {
-            dest[i] = self.gradient.eval(x as u16, y as u16, self.spread);
+            dest[i] = alpha_mul(self.gradient.eval(x as u16, y as u16, self.spread), self.alpha);
             x += 1;
         }
     }
@@ -464,16 +476,22 @@ impl Shader for SweepGradientShader {
 pub struct LinearGradientShader {
     gradient: Box<GradientSource>,
     spread: Spread,
+    alpha: u32,
 }
 
 impl LinearGradientShader {
     pub fn new(gradient: &Gradient, transform: &Transform, spread: Spread, alpha: u32) -> LinearGradientShader {
         LinearGradientShader {
+            // The colour table is built at full alpha and the global alpha is applied to the
+            // premultiplied result in shade_span: scaling the unpremultiplied stops (which is
+            // what make_source does with its alpha) and premultiplying afterwards would
+            // multiply the colour channels by alpha twice.
             gradient: gradient.make_source(&transform_to_fixed(
                 &transform.pre_translate(vec2(0.5, 0.5))),
-                alpha
+                255
             ),
             spread,
+            alpha: alpha_to_alpha256(alpha),
         }
     }
 }
@@ -481,7 +499,7 @@ impl LinearGradientShader {
 impl Shader for LinearGradientShader {
     fn shade_span(&self, mut x: i32, y: i32, dest: &mut [u32], count: usize) {
         for i in 0..count {
-            dest[i] = self.gradient.linear_gradient_eval(x as u16, y as u16, self.spread);
+            dest[i] = alpha_mul(self.gradient.linear_gradient_eval(x as u16, y as u16, self.spread), self.alpha);
             x += 1;
         }
     }
